@@ -100,9 +100,18 @@ def work(args):
                 rec['center_in'] = impl.call(lambda: b.center_point in b)
                 rec['counts'] = (len(b.point_set), len(b.segment_set), len(b.convex_polygons), len(b.pyramid_set))
                 # an intersection result fed back: polyhedron ∩ translated copy
-                t = impl.Vc((F(1, 2), F(1, 4), 0))
                 import copy
-                b2 = copy.deepcopy(b).move(t) if False else None
+                if R.random() < 0.5:
+                    # faces that carry float noise of an ulp or so -- each face of body ∩ (translated copy) is computed on its own, so a
+                    # shared edge has slightly different end points in its two faces: fed back, in shuffled order and with half of the
+                    # faces negated, the constructor must accept them and return the same body
+                    t = impl.Vc((F(1, 2), F(1, 4), F(-1, 4)))
+                    r_ = impl.intersection(b, copy.deepcopy(b).move(t))
+                    if isinstance(r_, impl.ConvexPolyhedron):
+                        fs_ = [(-f if R.random() < 0.5 else f) for f in r_.convex_polygons]
+                        R.shuffle(fs_)
+                        rec['feedback'] = impl.call(lambda: (lambda again: (again == r_, len(again.point_set) == len(r_.point_set), len(again.segment_set) == len(r_.segment_set),
+                                                                                   abs(again.volume() - r_.volume()) <= 1e-9 * max(1.0, r_.volume())))(impl.ConvexPolyhedron(tuple(fs_))))
         except Exception as e:
             rec['problems'].append('raises %s: %s' % (type(e).__name__, str(e)[:100]))
         out.append(rec)
@@ -239,6 +248,8 @@ def run(ctx, scale=1):
                     pr.append('Lean judge polyhedronValidB = %s' % r['validB'])
                 if r['center_in'] != ('ok', True):
                     pr.append('centre in body: %s' % (r['center_in'],))
+                if 'feedback' in r and r['feedback'] != ('ok', (True, True, True, True)):
+                    pr.append('the faces of body ∩ (translated copy), shuffled and partly negated, fed back into ConvexPolyhedron: (== the result, same V, same E, same volume) = %s' % (r['feedback'][1:] if r['feedback'][0] != 'ok' else r['feedback'][1],))
             if pr:
                 ok, why = admit.admitted([('B', faces)], derive=False)
                 if not ok:
